@@ -204,6 +204,14 @@ class Obj:
             return Image(torch.zeros(1, 4, 5), Grid(size=(5, 4), center=(0.0, 0.0)))
         if k == "FlowField":
             return FlowField(torch.zeros(2, 4, 5), Grid(size=(5, 4), center=(0.0, 0.0)), "world")
+        if k == "ImageBatch":
+            from deepali.data.image import ImageBatch
+
+            return ImageBatch(torch.zeros(2, 1, 4, 5), [Grid(size=(5, 4), center=(0.0, 0.0)), Grid(size=(5, 4), center=(0.0, 7.0))])
+        if k == "FlowFields":
+            from deepali.data.flow import FlowFields
+
+            return FlowFields(torch.zeros(2, 2, 4, 5), [Grid(size=(5, 4), center=(0.0, 0.0)), Grid(size=(5, 4), center=(0.0, 7.0))], "world")
         if k.startswith("Translation"):
             return S.Translation(Grid(size=(5, 4)), params=(k.endswith("param")))
         if k.startswith("DDF"):
@@ -217,7 +225,7 @@ class Obj:
             o.spacing_((1.0 + v, 1.0))
         elif k == "Cube":
             o.extent_((4.0 + v, 3.0))
-        elif k in ("Image", "FlowField"):
+        elif k in ("Image", "FlowField", "ImageBatch", "FlowFields"):
             with torch.no_grad():
                 o.fill_(float(v))
         else:
@@ -230,7 +238,7 @@ class Obj:
             return int(round(float(o.spacing()[0]) - 1.0))
         if k == "Cube":
             return int(round(float(o.extent()[0]) - 4.0))
-        if k in ("Image", "FlowField"):
+        if k in ("Image", "FlowField", "ImageBatch", "FlowFields"):
             return int(round(float(o.tensor().reshape(-1)[0])))
         return int(round(float(o.params.detach().reshape(-1).median()) / 0.125))  # median: a grid change resamples a dense field (padding at the border)
 
@@ -238,14 +246,24 @@ class Obj:
     def bstep(self) -> float:
         return 0.125 if self.kind.startswith("DDF") else 1.0
 
-    def set_B(self, o, v):
+    def new_grids(self, v):
         from deepali.core.grid import Grid
 
+        g = Grid(size=(5, 4), center=(float(v) * self.bstep(), 0.0))
+        return [g, Grid(size=(5, 4), center=(float(v) * self.bstep(), 7.0))] if self.kind in ("ImageBatch", "FlowFields") else g
+
+    def first_grid(self, o):
+        return o.grid(0) if self.kind in ("ImageBatch", "FlowFields") else o.grid()
+
+    def set_B(self, o, v, inplace_grid: bool = False):
         k = self.kind
         if k in ("Grid", "Cube"):
             o.center_((float(v), 0.0))
+        elif inplace_grid and not isinstance(o, torch.nn.Module):
+            # modify the Grid object the image holds, through its own underscore method (the grid is part of the object)
+            self.first_grid(o).center_((float(v) * self.bstep(), 0.0))
         else:
-            o.grid_(Grid(size=(5, 4), center=(float(v) * self.bstep(), 0.0)))
+            o.grid_(self.new_grids(v))
 
     def with_B(self, o, v):  # accessor: NEW object with B changed
         from deepali.core.grid import Grid
@@ -253,20 +271,20 @@ class Obj:
         k = self.kind
         if k in ("Grid", "Cube"):
             return o.center((float(v), 0.0))
-        return o.grid(Grid(size=(5, 4), center=(float(v) * self.bstep(), 0.0)))
+        return o.grid(self.new_grids(v))
 
     def get_B(self, o) -> int:
         k = self.kind
-        c = o.center() if k in ("Grid", "Cube") else o.grid().center()
+        c = o.center() if k in ("Grid", "Cube") else self.first_grid(o).center()
         return int(round(float(c[0]) / self.bstep()))
 
 
-def replay_history(ctx: Ctx, kind: str, hist: List[dict]) -> None:
+def replay_history(ctx: Ctx, kind: str, hist: List[dict], inplace_grid: bool = False) -> None:
     ad = Obj(kind)
     objs = {"orig": ad.make()}
     ckind = "none"
     ver = {1: 0, 2: 0, 3: 0, 4: 0}
-    sig0 = dict(kind=kind, part="copies")
+    sig0 = dict(kind=kind, part="copies", inplace_grid=inplace_grid)
     for k, st in enumerate(hist):
         a = st["a"]
         try:
@@ -283,7 +301,10 @@ def replay_history(ctx: Ctx, kind: str, hist: List[dict]) -> None:
                 o, c = st["obj"], st["args"][0]
                 ver[c] += 1
                 is_A = (c == 1) or (ckind == "deep" and c == 3)
-                (ad.set_A if is_A else ad.set_B)(objs[o], ver[c])
+                if is_A:
+                    ad.set_A(objs[o], ver[c])
+                else:
+                    ad.set_B(objs[o], ver[c], inplace_grid)
             elif a == "observe":
                 o = st["obj"]
                 cells = sorted(int(x) for x in st["sees"].keys()) if isinstance(st["sees"], dict) else None
@@ -322,10 +343,12 @@ def run(ctx: Ctx) -> None:
     hists = [h for h in hists if not any(s["a"] == "function" for s in h)]
     if not hists:
         raise MachineryError("no histories")
-    kinds = ["Grid", "Cube", "Image", "FlowField", "Translation:tensor", "Translation:param", "DDF:tensor", "DDF:param"]
+    kinds = ["Grid", "Cube", "Image", "FlowField", "ImageBatch", "FlowFields", "Translation:tensor", "Translation:param", "DDF:tensor", "DDF:param"]
     for kind in kinds:
         for h in hists:
             replay_history(ctx, kind, h)
+            if kind in ("Image", "FlowField", "ImageBatch", "FlowFields"):
+                replay_history(ctx, kind, h, inplace_grid=True)
             ctx.count(key=(kind, json.dumps(h)), nontrivial=any(s["a"] == "mutate" for s in h))
     ctx.notes["copy_histories"] = len(hists)
     ctx.sample(dict(kind="Grid", hist=hists[len(hists) // 2]))
@@ -379,6 +402,7 @@ def replay(ctx: Ctx, data: Dict[str, Any]) -> None:
     c = data["case"]
     if "hist" in c:
         replay_history(ctx, c["kind"], c["hist"])
+        replay_history(ctx, c["kind"], c["hist"], inplace_grid=True)
         return
     if "method" in c:
         from ..mutlib import sweep
